@@ -96,6 +96,8 @@ def qbytes_mm_impl_cpu(activations: torch.Tensor, weights: torch.Tensor, output_
         version.parse(torch.__version__).release >= version.parse("2.4.0").release
         and activations.dtype == torch.int8
         and weights.dtype == torch.int8
+        # Note: torch._int_mm returns uninitialized values on CPU when there is a single input feature
+        and activations.shape[-1] > 1
     ):
         return qbytes_int_mm(activations, weights, output_scales)
     in_features = activations.shape[-1]
